@@ -51,6 +51,9 @@ def run(ck, replay=None):
     for _ in range(nrand):
         n = rng.choice([0, 1, 2, 3, 5, 8, 13, 21, 34, 40]) if rng.random() < 0.5 else rng.randint(0, 40)
         lists.append(('rand', None, n))
+    # a few lists whose total size is far beyond any I/O buffer (40 elements of 100-400 bytes)
+    for _ in range(6):
+        lists.append(('big', None, 40))
     jobs, plan = [], []
     cid = 0
     for ent in lists:
@@ -66,7 +69,11 @@ def run(ck, replay=None):
                         xs = [x.replace('日', 'J') for x in xs]
                 else:
                     n = ent[2]
-                    if dt == 'json':
+                    if ent[0] == 'big':
+                        if op not in ('msort', 'mtac', 'append', 'match'):
+                            continue
+                        xs = [word(rng, alpha, 100, 400, strict=True) for _ in range(n)]
+                    elif dt == 'json':
                         xs = [word(rng, alpha, 0, 8) for _ in range(n)]
                     else:
                         xs = [word(rng, alpha, 1, 8, strict=True) for _ in range(n)]
